@@ -6,4 +6,7 @@ func extractAll() {
 	extractOpTable()
 	extractC14Facts()
 	extractTargets()
+	extractModKeyFacts()
+	extractCtxLock()
+	extractParWrites()
 }
